@@ -347,10 +347,12 @@ class Builtins:
         ex = self.ex
         a, b = args
         if isinstance(a, SInt) and isinstance(b, SInt):
+            def okd(s):
+                q, r = ex.divmod_terms(a.t, b.t, s)
+                return ex.ok(STuple([SInt(q), SInt(r)]), s)
             if ex.spec_mode:
-                return ex.ok(STuple([SInt(py_floordiv(a.t, b.t)), SInt(py_mod(a.t, b.t))]), st)
-            return ex.split(b.t == 0, st, lambda s: ex.exc('ZeroDivisionError', s),
-                            lambda s: ex.ok(STuple([SInt(py_floordiv(a.t, b.t)), SInt(py_mod(a.t, b.t))]), s))
+                return okd(st)
+            return ex.split(b.t == 0, st, lambda s: ex.exc('ZeroDivisionError', s), okd)
         raise Unsupported('divmod of %r, %r' % (a, b))
 
     def _minmax(self, is_min, args, kw, st, fr):
